@@ -137,6 +137,12 @@ func withWatchdog(f func() string) string {
 	}
 }
 
+// ["other", 9, {"e": ext0(8 bytes), "l": [ext0(8 bytes), ext5-time], "r": ext(77)}]
+var decOther = nArr(nStr([]byte("other")), nInt(9), nMap(
+	nStr([]byte("e")), nExt(0, []byte{0x11, 0x22, 0x33, 0x44, 0x05, 0x06, 0x07, 0x08}),
+	nStr([]byte("l")), nArr(nExt(0, []byte{0x51, 0x52, 0x53, 0x54, 0x01, 0x02, 0x03, 0x04}), nExt(5, []byte{0, 0, 0, 0, 0x5f, 0x5e, 0x10, 0x00, 0, 0, 0, 9})),
+	nStr([]byte("r")), nExt(77, []byte{9, 9, 9}))).Enc()
+
 func decObs(ty, path string, prev []byte, havePrev bool, b []byte) string {
 	return withWatchdog(func() string {
 		rv := newRecv(ty)
@@ -151,6 +157,11 @@ func decObs(ty, path string, prev []byte, havePrev bool, b []byte) string {
 		}
 		first := renderMsg(rv)
 		reuse()
+		// … and the library goes on to decode something else: a message whose record holds extension values of
+		// every registered kind, through both paths (objects handed out by a registry must not be shared)
+		var o1, o2 protocol.Message
+		_, _ = o1.UnmarshalMsg(append([]byte{}, decOther...))
+		_ = o2.DecodeMsg(msgp.NewReader(bytes.NewReader(decOther)))
 		if again := renderMsg(rv); again != first {
 			// the decoded value looks into memory that belongs to the caller / the reader
 			return fmt.Sprintf("ok %d %s aliased", n, first)
